@@ -4,8 +4,23 @@ package bexpr
 
 // H_C13_history: after any two earlier calls (mixed data and outcomes) the
 // third call returns what a fresh evaluator returns; the datum is never written.
+// scoping-sensitive expressions: a quantifier binds a name that is also a
+// top-level key used outside its braces — state left behind by one call (a
+// binding that survives an error, say) shows in the next.
+var exprsC13scope = []string{
+	`s == "a" or any l as s { s matches "^w" }`, `n == 1 or any m as n, v { v == 1 }`, `(all l as f { f == 1 }) or f == 1.5`,
+	`any l as x { any m as x, v { v == 1 } } or s == "a"`, `(any ts as s { s == 1 }) or s matches "a"`, `not (any l as n { n == "x" }) and n == 1`,
+}
+
 func H_C13_history() {
-	expr := exprsC12[vChoose(len(exprsC12))]
+	ne := len(exprsC12)
+	ei := vChoose(ne + len(exprsC13scope))
+	var expr string
+	if ei < ne {
+		expr = exprsC12[ei]
+	} else {
+		expr = exprsC13scope[ei-ne]
+	}
 	opts := optsC12(vChoose(4))
 	ev, err := CreateEvaluator(expr, opts...)
 	vAssume(err == nil)
